@@ -19,25 +19,28 @@ InitList == InitRest /\ \E i \in 1..Len(T_Cells) : cell = T_Cells[i]
 InitInP(diag) ==
           /\ InitRest
           /\ \E x \in T_True, b \in BOOLEAN, cm \in Decls, ie \in Decls, p \in Paths :
-               \E c1 \in T_Rep[x] : \E c2 \in (IF diag THEN {c1} ELSE T_Rep[x]) :
-               \E o \in (IF p \in {"moddir", "reload"} THEN {"none", "future1", "modblock"} ELSE {"none"}) :
+               \E c1 \in T_Rep[x] : \E c2 \in (IF diag THEN {c1, "A"} ELSE T_Rep[x]) :
+               \E o \in (IF p \in {"moddir", "reload"} THEN (IF diag THEN {"none", "future1"} ELSE {"none", "future1", "modblock"}) ELSE {"none"}) :
                  cell = [id |-> 0, form |-> "bytes", x |-> x, bom |-> b, cm |-> cm, ie |-> ie, c |-> <<c1, c2>>,
                          path |-> p, oe |-> None, errs |-> "strict", opt |-> o, bj |-> None, bp |-> None]
 InitOutP(diag) ==
            /\ InitRest
            /\ \E c1 \in (IF diag THEN {"A"} ELSE T_Base), oe \in {None} \cup T_Out, e \in T_Errs :
-                \/ \E c2 \in T_Syms :
+                \/ \E c2 \in T_GridSyms :
                      cell = [id |-> 0, form |-> "str", x |-> "utf_8", bom |-> FALSE, cm |-> None, ie |-> None,
                              c |-> <<c1, c2>>, path |-> "bytes", oe |-> oe, errs |-> e, opt |-> "none", bj |-> None, bp |-> None]
                 \/ \E c2 \in T_Base, p \in (IF diag THEN {"moddir"} ELSE Paths) :
                      cell = [id |-> 0, form |-> "bytes", x |-> "utf_8", bom |-> FALSE, cm |-> None, ie |-> None,
                              c |-> <<c1, c2>>, path |-> p, oe |-> oe, errs |-> e, opt |-> "none", bj |-> None, bp |-> None]
 \* possibly undecodable input: every byte string x position x true codec x BOM x declaration x path
-InitBad == /\ InitRest
+InitBadP(diag) ==
+           /\ InitRest
            /\ \E x \in T_True, b \in BOOLEAN, j \in T_Junk, p \in Paths,
-                 pos \in {"start", "incomment", "middle", "eol_lf", "eol_crlf", "eof"} :
-               \E cm \in {None, x}, ie \in {None, x}, c1 \in T_Rep[x] :
-                 /\ (pos = "incomment" => cm # None) /\ (pos = "start" => cm = None)
+                 pos \in {"start", "aftercomment", "incomment", "middle", "eol_lf", "eol_crlf", "eof"} :
+               \E cm \in {None, x}, ie \in {None, x}, c1 \in (IF diag THEN {"A"} ELSE T_Rep[x]) :
+                 /\ (pos \in {"incomment", "aftercomment"} => cm # None) /\ (pos = "start" => cm = None)
+                 /\ T_JunkCodec[j] \in {"any", x}          \* a character (not a raw byte string) comes in the cell's codec
+                 /\ ((T_JunkHex[j] = "hefbbbf" /\ pos = "start") => b)   \* U+FEFF first, without a mark before it, IS the mark
                  /\ cell = [id |-> 0, form |-> "bytes", x |-> x, bom |-> b, cm |-> cm, ie |-> ie, c |-> <<c1, "A">>,
                             path |-> p, oe |-> None, errs |-> "strict", opt |-> "none", bj |-> j, bp |-> pos]
 Report == /\ Finished /\ Emit /\ PrintT(ToJson(Observation)) /\ pc' = "reported"
@@ -45,8 +48,9 @@ Report == /\ Finished /\ Emit /\ PrintT(ToJson(Observation)) /\ pc' = "reported"
 MCNext == Next \/ Report
 MCSpec == InitList /\ [][MCNext]_vars
 SpecIn == InitInP(FALSE) /\ [][MCNext]_vars
-SpecInDiag == InitInP(TRUE) /\ [][MCNext]_vars     \* quick tier: both characters equal
-SpecBad == InitBad /\ [][MCNext]_vars
+SpecInDiag == InitInP(TRUE) /\ [][MCNext]_vars     \* quick tier: the second character equals the first or is ASCII
+SpecBad == InitBadP(FALSE) /\ [][MCNext]_vars
+SpecBadDiag == InitBadP(TRUE) /\ [][MCNext]_vars    \* quick tier: the ordinary characters of the cell are ASCII
 SpecOut == InitOutP(FALSE) /\ [][MCNext]_vars
 SpecOutDiag == InitOutP(TRUE) /\ [][MCNext]_vars   \* quick tier: first character fixed
 \* the tables are closed under a round trip (what the module-file paths rely on); checked once
